@@ -3,7 +3,7 @@ From Coq Require Import List Arith Lia Bool Ascii String NArith Sorted.
 Import ListNotations.
 From AV Require Import lib.Str lib.Path model.CFS_file model.CFS_tree model.CFS_inst model.C08_run model.CFS_bg model.CFS_tload model.CFS_run
   proofs.CFS_file_proofs proofs.CFS_refine proofs.CFS_prov proofs.CFS_tree_proofs proofs.CFS_bg_proofs proofs.CFS_escape_proofs
-  proofs.CFS_text_lemmas proofs.CFS_range_proofs proofs.CFS_stream_proofs proofs.CFS_rt_defs proofs.CFS_line_proofs proofs.CFS_ents_inv proofs.CFS_tree_rt.
+  proofs.CFS_text_lemmas proofs.CFS_range_proofs proofs.CFS_stream_proofs proofs.CFS_rt_defs proofs.CFS_line_proofs proofs.CFS_ents_inv proofs.CFS_tree_rt proofs.CFS_hist_proofs.
 Notation length := List.length.
 Notation byte := CFS_file.byte.
 Local Open Scope string_scope.
@@ -409,6 +409,20 @@ Proof.
   destruct ok; [|inversion Em]. inversion Em; subst st1' txt. clear Em.
   rewrite <- Habs, tree_listing_abs. rewrite <- Hlen.
   exact (marshal_text_loads_back tab st1 Htab HIn HB1 HE1 Hr).
+Qed.
+
+(* the plain filesystem's state after a history is the one reached by its foreground operations alone *)
+Theorem bg_history_state (Hmb : 1 <= mb) tab es : forall st, BInv mb st ->
+  abs mb (fsys mb (bfinal mb tab st es)) = fg_final Spec (abs mb (fsys mb st)) (fg_ops es).
+Proof.
+  induction es as [|e r IH]; intros st HB; cbn [bfinal fg_ops flat_map]; [reflexivity|].
+  pose proof (bexec_ok mb Hmb tab st e HB) as H. destruct (bexec mb tab st e) as [st' o]. destruct H as [HB' Hsp]. cbn [fst].
+  rewrite (IH st' HB'). destruct e as [op v|p sh v|v|d|m]; cbn [spec_effect] in Hsp.
+  - destruct Hsp as (v0 & _ & Hst). cbn [app fg_final]. rewrite Hst. reflexivity.
+  - cbn [app]. rewrite Hsp. reflexivity.
+  - cbn [app]. rewrite Hsp. reflexivity.
+  - cbn [app]. rewrite Hsp. reflexivity.
+  - cbn [app]. rewrite Hsp. reflexivity.
 Qed.
 
 End RT.
